@@ -34,7 +34,7 @@ MANIFEST = {
 OPS = {
     "C05": {"OnlyAcceptedReady", "OnlyAcceptedData", "OnlyAcceptedSend", "Continuity", "Undisturbed"},
     "C02": {"AtMostOnce", "Authentic"},
-    "C07": {"Converges", "ConvergesKnownHopeless"},
+    "C07": {"Converges", "ConvergesKnownHopeless", "NoIdleTeardown", "SendSurvives"},
 }
 
 GEN = {
@@ -104,6 +104,8 @@ def run_pipeline(tier, replay_behaviours=None):
         behs, mcf, ex = stage1(tier, stats)
     else:
         behs = replay_behaviours
+    timed_ex = ThreadPoolExecutor(max_workers=1)
+    timed_fut = timed_ex.submit(run_timed, binp, d) if replay_behaviours is None else None
     allb, bid = {}, 0
     p = os.path.join(d, "beh.ndjson")
     with open(p, "w") as f:
@@ -144,6 +146,12 @@ def run_pipeline(tier, replay_behaviours=None):
             what = "%s false on real channels at %s (family %s, behaviour %d, event line %d%s)" % (
                 op, ev["ev"], fam, beh, lineno, (", panic: " + ev.get("panicv", "")) if ev.get("panic") else "")
             violations.append((pid, key, what, dict(behaviour=allb[beh], event={k: ev[k] for k in ev if k not in ("expa", "expb")}, operator=op)))
+    # timed scenarios (ChannelTime.tla): keep-alive, rekey-by-time, replay across rotation
+    if replay_behaviours is None:
+        tres = timed_fut.result()
+        stats["timed"] = tres["stats"]
+        violations.extend(tres["violations"])
+        stats["events"] += tres["stats"]["cases"]
     stats["drift"] = len(res["drift"])
     for dr in res["drift"][:3]:
         stats["drift_samples"].append(dict(line=dr[1], behaviour=dr[2], family=allb[dr[2]]["family"], what=dr[3]))
@@ -155,6 +163,38 @@ def run_pipeline(tier, replay_behaviours=None):
     stats["samples"] = [dict(family=allb[i]["family"], actions=[s["act"] for s in allb[i]["hist"]][:14]) for i in ids[:1] + ids[-1:]]
     stats["wall"] = time.time() - t0
     return stats, violations
+
+
+def run_timed(binp, d):
+    """ChannelTime.tla: model-check the timed abstraction, take its cases, run them on real channels."""
+    res = core.tlc("ChannelTime", "ChannelTime.cfg", workers=1, timeout=600, label="mc-time", short=True)
+    core.tlc_ok_or_inconclusive(res, "MC ChannelTime")
+    cases = [x[1] for x in res.printed("CASE")]
+    if not cases:
+        raise core.Inconclusive("ChannelTime produced no cases")
+    p = os.path.join(d, "timed_cases.ndjson")
+    with open(p, "w") as f:
+        for i, c in enumerate(cases):
+            c["id"] = 100000 + i
+            f.write(json.dumps(c) + "\n")
+    tr = os.path.join(d, "timed_trace.ndjson")
+    core.run([binp, "-timed", "-in", p, "-out", tr], timeout=600)
+    tv = core.validate_trace("ChannelTimeTrace", "ChannelTimeTrace.cfg", tr, nshards=1)
+    lines = open(tr).readlines()
+    violations = []
+    for v in tv["viol"]:
+        _t, lineno, beh, ops = v
+        ev = json.loads(lines[lineno - 1])
+        for op in ops:
+            pid = classify(op) or "C07"
+            key = "%s:%s:timed/%s" % (pid, op, ev["pat"])
+            what = "%s false on real channels in timed scenario K=%d R=%d J=%d ticks, pattern %s: hellos=%d (model bound %d), sends failed %d of %d, dups %d" % (
+                op, ev["K"], ev["R"], ev["J"], ev["pat"], ev["hellos"], ev["maxhellos"], ev["sendfail"], ev["sends"], ev["dups"])
+            violations.append((pid, key, what, dict(timed_case=ev, operator=op)))
+    evs = [json.loads(l) for l in lines]
+    return dict(stats=dict(cases=len(cases), model_states=res.distinct, max_stall_ms=max(e["stall_ms"] for e in evs),
+                           sends=sum(e["sends"] for e in evs), replayed_old_ciphertexts=sum(e["replayed"] for e in evs)),
+                violations=violations)
 
 
 def check(pid, tier, replay=None):
@@ -186,7 +226,8 @@ def report(pid, tier, stats, mine, t0):
         samples=stats["samples"] or [dict(note="replay run")],
         evaluations=stats["events"], distinct_nontrivial=stats["trace_states"],
         rule="evaluations = environment actions executed on the real channels (each followed by waiting for the real timers), validated by TLC; distinct_nontrivial = distinct states of the trace specification",
-        model_checking=stats["mc"], behaviours=stats["behaviours"], drift_steps=stats["drift"], settle=stats["settle"], exhaustive=False)
+        model_checking=stats["mc"], behaviours=stats["behaviours"], drift_steps=stats["drift"], settle=stats["settle"],
+        timed=stats.get("timed", {}), exhaustive=False)
     core.write_evidence(pid, tier, "model_checking", coverage,
                         ["sessions inside the channel are abstracted (their exact machine is Session.tla)",
                          "real-time threshold of the settle phase: 1.5 s, re-measured, harness stall detector",
